@@ -1071,6 +1071,63 @@ fn side_area_q(sub: &mut Sub, cfg: &Config, idx: u64) {
     });
 }
 
+/// areas on native element types: integer-valued vertices far from the origin (every difference and
+/// product of differences exact in the type), so the result must be exactly half the cross product
+/// of the edge vectors, for floats and for signed integers; the two windings must agree
+macro_rules! area_native_case {
+    ($sub:expr, $cfg:expr, $idx:expr, $T:ty, $ty:expr, $off:expr, $edge:expr, $conv:expr, $back:expr) => {{
+        let mut rng = Rng::for_case(concat!("area_native/", $ty), $cfg.case_seed(), $idx);
+        let off: i64 = $off;
+        let ed: i64 = $edge;
+        let o = [rng.range_i64(-off, off), rng.range_i64(-off, off)];
+        let a = [o[0], o[1]];
+        let b = [o[0] + rng.range_i64(-ed, ed), o[1] + rng.range_i64(-ed, ed)];
+        let c = if rng.chance(1, 6) { let k = rng.range_i64(-3, 3); [a[0] + k * (b[0] - a[0]), a[1] + k * (b[1] - a[1])] } else { [o[0] + rng.range_i64(-ed, ed), o[1] + rng.range_i64(-ed, ed)] };
+        // twice the signed area, exactly; vek: determine_side(a, b) of c = (b-a) x (c-a)
+        let cr: i128 = ((b[0] - a[0]) as i128) * ((c[1] - a[1]) as i128) - ((b[1] - a[1]) as i128) * ((c[0] - a[0]) as i128);
+        let conv = $conv;
+        let back = $back;
+        let v = |p: [i64; 2]| -> Vec2<$T> { Vec2 { x: conv(p[0]), y: conv(p[1]) } };
+        let mut h = H64::new();
+        h.s($ty);
+        for p in [a, b, c] {
+            h.i(p[0] as i128).i(p[1] as i128);
+        }
+        let inp = format!("a={:?} b={:?} c={:?} (integer-valued, exact in {})", a, b, c, $ty);
+        $sub.saw("Vec2::signed_triangle_area");
+        $sub.saw("Vec2::triangle_area");
+        $sub.saw("Vec2::determine_side");
+        let got = guarded(|| (Vec2::<$T>::signed_triangle_area(v(a), v(b), v(c)), Vec2::<$T>::triangle_area(v(a), v(b), v(c)), Vec2::<$T>::triangle_area(v(a), v(c), v(b)), v(c).determine_side(v(a), v(b))));
+        match got {
+            Err(e) => {
+                let vio = violation(PROP, $sub, "Vec2::signed_triangle_area", $ty, "panic", "area_of_representable_triangle", format!("{}: panicked: {}", inp, e), $cfg.case_seed(), $idx);
+                $sub.violated(vio);
+            }
+            Ok((sa, ta, tb, side)) => {
+                let (sa, ta, tb, side): (f64, f64, f64, f64) = (back(sa), back(ta), back(tb), back(side));
+                // integer types halve by integer division (truncation), floats exactly
+                let half = |x: i128| -> f64 { if <$T as IsInt>::INT { (x / 2) as f64 } else { x as f64 / 2.0 } };
+                let mut bad = None;
+                if side != cr as f64 { bad = Some(("Vec2::determine_side", "not_cross2d", format!("determine_side = {}, (b-a) x (c-a) = {}", side, cr))); }
+                else if sa != half(cr) { bad = Some(("Vec2::signed_triangle_area", "not_half_cross2d", format!("signed_triangle_area = {}, half of (b-a) x (c-a) = {} is {}", sa, cr, half(cr)))); }
+                else if ta != half(cr).abs() || tb != half(-cr).abs() { bad = Some(("Vec2::triangle_area", "not_abs_half_cross2d", format!("triangle_area(a,b,c) = {}, triangle_area(a,c,b) = {}, |half cross| = {}", ta, tb, half(cr).abs()))); }
+                match bad {
+                    None => { $sub.sample(|| format!("[{}] {} -> signed area {}", $ty, inp, sa)); $sub.held(h.get(), cr != 0); }
+                    Some((api, what, msg)) => { let vio = violation(PROP, $sub, api, $ty, "wrong_value", what, format!("{}: {}", inp, msg), $cfg.case_seed(), $idx); $sub.violated(vio); }
+                }
+            }
+        }
+    }};
+}
+trait IsInt {
+    const INT: bool;
+}
+impl IsInt for f32 { const INT: bool = false; }
+impl IsInt for f64 { const INT: bool = false; }
+impl IsInt for i16 { const INT: bool = true; }
+impl IsInt for i32 { const INT: bool = true; }
+impl IsInt for i64 { const INT: bool = true; }
+
 fn homog_q(sub: &mut Sub, cfg: &Config, idx: u64) {
     drive(sub, cfg, idx, "homog_q", "Q", "Vec4", |cx, rng, h| {
         let mut v = rand_vec_q(rng, 4);
@@ -1194,8 +1251,11 @@ fn angle_float<T: Fl, V: Sp<T>>(sub: &mut Sub, cfg: &Config, idx: u64) {
     drive(sub, cfg, idx, "angle_float", T::TY, V::NAME, |cx, rng, h| {
         let n = V::DIM;
         let eps = T::EPS;
-        let su = 10f64.powf(rng.f64_in(-6.0, 6.0));
-        let sv = 10f64.powf(rng.f64_in(-6.0, 6.0));
+        // a third of the pairs have extreme magnitudes (each squared length still far from the
+        // type's overflow / underflow limits): the angle does not depend on the lengths
+        let e = if rng.chance(1, 3) { if eps > 1e-10 { 17.0 } else { 150.0 } } else { 6.0 };
+        let su = 10f64.powf(rng.f64_in(-e, e));
+        let sv = 10f64.powf(rng.f64_in(-e, e));
         let u: Vec<T> = (0..n).map(|_| T::of(su * rng.f64_in(-1.0, 1.0))).collect();
         let mode = idx % 8;
         let v: Vec<T> = match mode {
@@ -1525,6 +1585,17 @@ fn main() {
         push_sub(&mut rep, run_cases(&cfg, proto, n, |s, i| { all_kinds!(face_forward_q, Q, s, &cfg, i); }));
     }
     {
+        let na = cfg.n(400, 40_000);
+        let proto = Sub::new("area_native", "Vec2<f32> (vertices near +-7e6, edges up to 2000), Vec2<f64> (near +-2^50, edges up to 2^20), Vec2<i16> (near +-400, edges up to 100), Vec2<i32> (near +-2e6, edges up to 3000), Vec2<i64>: integer-valued vertices so that the edge vectors and their cross product are exact in the type; determine_side = (b-a) x (c-a), signed_triangle_area = half of it (integer types: truncating division), triangle_area = its absolute value for both windings; a panic is a violation; non-trivial = not collinear").with_floor(na * 3).require(&["Vec2::signed_triangle_area", "Vec2::triangle_area", "Vec2::determine_side"]);
+        push_sub(&mut rep, run_cases(&cfg, proto, na, |s, i| {
+            area_native_case!(s, &cfg, i, f32, "f32", 7_000_000, 2000, |k: i64| k as f32, |x: f32| x as f64);
+            area_native_case!(s, &cfg, i, f64, "f64", 1i64 << 50, 1i64 << 20, |k: i64| k as f64, |x: f64| x);
+            area_native_case!(s, &cfg, i, i16, "i16", 400, 100, |k: i64| k as i16, |x: i16| x as f64);
+            area_native_case!(s, &cfg, i, i32, "i32", 2_000_000, 3000, |k: i64| k as i32, |x: i32| x as f64);
+            area_native_case!(s, &cfg, i, i64, "i64", 1i64 << 40, 1i64 << 20, |k: i64| k, |x: i64| x as f64);
+        }));
+    }
+    {
         let n = cfg.n(10_000, 300_000);
         let proto = Sub::new("side_area_q", "rational segment a != b and c = a + alpha (b-a) + beta left(b-a) (left = rotated +90 degrees; beta = 0 in a quarter of the cases): determine_side = beta |b-a|^2 (positive = left of ab as documented), signed_triangle_area = half of it (cross-checked with the shoelace formula), triangle_area = absolute value; non-trivial = beta != 0").with_floor(n / 4).require(&["Vec2::determine_side", "Vec2::signed_triangle_area", "Vec2::triangle_area"]);
         push_sub(&mut rep, run_cases(&cfg, proto, n, |s, i| side_area_q(s, &cfg, i)));
@@ -1556,7 +1627,7 @@ fn main() {
     }
     {
         let n = cfg.n(4000, 400_000);
-        let proto = req(Sub::new("angle_float", "f32/f64 pairs (Vec2/3/4/8, Extent2/3), magnitudes 1e-6..1e6: general, exactly parallel (v = k u), antiparallel, orthogonal by construction, nearly parallel (relative perturbation 1e-9..1e-2); zero-length operands are outside the domain (inconclusive): angle_between finite, in [0, pi_T], |cos(angle) - u^.v^| <= 128 eps with u^.v^ computed in f64").with_floor(n * nsk), &SMALL_KINDS, &["angle_between"]);
+        let proto = req(Sub::new("angle_float", "f32/f64 pairs (Vec2/3/4/8, Extent2/3), magnitudes 1e-6..1e6 (a third 1e-17..1e17 for f32, 1e-150..1e150 for f64): general, exactly parallel (v = k u), antiparallel, orthogonal by construction, nearly parallel (relative perturbation 1e-9..1e-2); zero-length operands are outside the domain (inconclusive): angle_between finite, in [0, pi_T], |cos(angle) - u^.v^| <= 128 eps with u^.v^ computed in f64").with_floor(n * nsk), &SMALL_KINDS, &["angle_between"]);
         push_sub(&mut rep, run_cases(&cfg, proto, n, |s, i| { small_kinds!(angle_float, f32, s, &cfg, i); small_kinds!(angle_float, f64, s, &cfg, i); }));
     }
     {
